@@ -767,6 +767,8 @@ class CSSStyleSheet(cssutils.stylesheets.StyleSheet):
                             break
                 else:
                     # find first point to insert, after @charset and @import
+                    # (a given index is ignored: append if no such point)
+                    index = len(self._cssRules)
                     start = 0
                     for i, r in enumerate(self._cssRules):
                         if r.type in (r.CHARSET_RULE, r.IMPORT_RULE):
@@ -847,6 +849,8 @@ class CSSStyleSheet(cssutils.stylesheets.StyleSheet):
                 else:
                     # find first point to insert, after @charset, @import
                     # and @namespace
+                    # (a given index is ignored: append if no such point)
+                    index = len(self._cssRules)
                     start = 0
                     for i, r in enumerate(self._cssRules):
                         if r.type in (
